@@ -192,6 +192,8 @@ def run_case(case):
                 injected[0] = None
             sess.core.faults = None
             sess.core.stall = None
+            # the device the object connects to next either counts its stream ids on (the same adbd) or starts from the beginning again (a restarted one)
+            sess.sim.remote_restart = bool((kk[0] // 3) % 2)
             if case["maxdata"] > 4096:
                 sess.sim.maxdata = 4096          # the healthy device the object connects to next announces the legacy limit: nothing sized for the old session may survive
             for name, lk in locks_of(sess.dev):
